@@ -13,7 +13,7 @@ EXPLANATION = ("Necessary shape conditions, decided on every path: (R10.1) in ea
                "nowhere else; report_stream_dropped is reachable only from ChannelConsumer::drop_resources, which is called only by Drop for MutinyStream; MutinyStream "
                "is neither Clone nor Copy and is never mem::forget-ed; every channel's drop_resources (11) releases exactly once; (R10.3) the vacant FIFO has capacity "
                "MAX_STREAMS and is filled once with 0..MAX_STREAMS; (R10.4) every create_stream* wraps exactly the id it obtained from create_stream_id; (R10.5) a request to end one "
-               "stream cancels its id once, before it waits -- never from inside the loop that runs until the id is vacant again (a vacant id may already belong to a new listener).")
+               "stream cancels its id once, before it waits -- never from inside the loop that runs until the id is vacant again (a vacant id may already belong to a new listener). Every channel's running_streams_count forwards to the manager, which answers a load of used_streams_count.")
 ASSUMPTIONS = ["the rebuild algorithm inside sync_vacant_and_used_streams (live list = complement of the vacant FIFO) is covered by the unit tests' sequential histories, not re-proved here",
                "'all of them if it keeps polling' is the delivery / wake-up behaviour of C03 / C04"]
 
@@ -100,6 +100,14 @@ def check(ctx):
         has = [i for i in fx.impls_of(tr) if i["self"] == STREAM]
         ctx.ob("R10.2", f"{STREAM}|not-{tr.split('::')[-1]}", not has, "", f"MutinyStream must not implement {tr} (a copy would release the id twice)", nontrivial=False)
     S.check_release_all_channels(ctx, "R10.2")
+    # the count a caller reads is the manager's counter: every channel forwards, and the manager answers a load of used_streams_count
+    import delegation
+    for name, path in R.CHANNELS.items():
+        delegation.thin(ctx, "R10.2", f"{path} as {R.T_COMMON}::running_streams_count", "running_streams_count", "the running-stream count reported by a channel is the manager's live counter")
+    rb = Body(fx.fn(SM + "::running_streams_count")); rd = D.Dag(rb)
+    r0 = strip_casts(rd.local(0))
+    ctx.ob("R10.2", f"{SM}::running_streams_count|answers-the-live-counter", r0[0] == "atomic" and r0[1] == "load" and r0[2][-1:] == ("used_streams_count",), f"{rb.f['file']}:{rb.f['line']}",
+           f"answers `{show(r0)[:60]}`; required: a load of used_streams_count (the counter create_stream_id / report_stream_dropped maintain)")
     ctx.floor("R10.2", 30)
     # ------------------------------------------------------------------ R10.3 vacant FIFO
     k = SM + "::new"
